@@ -940,6 +940,39 @@ def build_fn(ctx, unit, fs):
                 kk += 1
             if not done:
                 raise LostAnchor(f"{fs.path}: N9 parameter {pname} not found")
+    # T6: opaque parameter type: pty=name:Type (the parameter's type is outside Verus; every use of it in the body
+    # must be covered by an O1 rewrite, otherwise rustc rejects the unit)
+    if fs.opts.get("pty") and not arm:
+        for spec in fs.opts["pty"].split(","):
+            pname, nty = spec.split(":")
+            nty = nty.replace("~", " ")
+            popen = q + 2
+            pclose = pair[popen]
+            kk = popen + 1
+            done = False
+            while kk < pclose:
+                if toks[kk].text == pname and toks[kk + 1].text == ":":
+                    j = kk + 2
+                    depth = 0
+                    while j < pclose:
+                        if toks[j].text in ("(", "["):
+                            j = pair[j] + 1
+                            continue
+                        if toks[j].text == "<":
+                            depth += 1
+                        elif toks[j].text == ">":
+                            depth -= 1
+                        elif toks[j].text == "," and depth == 0:
+                            break
+                        j += 1
+                    oldty = sf.text[toks[kk + 2].start:toks[j - 1].end]
+                    edits.append(Edit(toks[kk + 2].start, toks[j - 1].end, nty))
+                    ctx.fire("T6", sf, toks[kk].start, f"parameter {pname}: {oldty} -> opaque {nty}")
+                    done = True
+                    break
+                kk += 1
+            if not done:
+                raise LostAnchor(f"{fs.path}: T6 parameter {pname} not found")
     # contract clauses before body
     ins_off = toks[sig_end_tok].start
     spec_segs = []
@@ -1169,13 +1202,16 @@ def site_rewrite(ctx, sf, it, rule, anchor, nth, ropts, what):
         # opaque statement: replace anchor..(through `;`) by a call to an external_body stub
         k = b
         end = e
-        if ropts.get("to_semicolon", True) not in ("", "0", False):
+        if toks[b - 1].text == ";":
+            end = e
+            call_semi = True
+        elif ropts.get("to_semicolon", True) not in ("", "0", False):
             depth_k = b
             while toks[depth_k].text != ";":
                 depth_k = pair[depth_k] + 1 if toks[depth_k].text in ("(", "[", "{") else depth_k + 1
             end = toks[depth_k].end
         call = ropts["call"].replace("~", " ")
-        edits.append(Edit(s, end, call + (";" if end != e else "")))
+        edits.append(Edit(s, end, call + (";" if (end != e or toks[b - 1].text == ";") else "")))
         ctx.fire("O1", sf, s, f"opaque statement -> {call}")
     elif rule == "N12L":
         # alpha-renaming of a local that shadows a parameter (`let pos = pos.into();`): the binding in the anchor and every
@@ -1238,7 +1274,7 @@ def rewrite_for_to_while(ctx, sf, a, b, ropts, what):
     A = sf.text[toks[lo_tok].start:toks[d - 1].end]
     B = sf.text[toks[d + 1].start:toks[hi_tok - 1].end]
     incl = toks[d].text == "..="
-    c = f"{var}__c"
+    c = f"{var}__c" if var != "_" else "rep__c"
     ty = ropts.get("ty")
     tyann = f": {ty}" if ty else ""
     if not rev:
